@@ -408,6 +408,15 @@ reg("np.lib.stride_tricks.sliding_window_view", "np.lib.stride_tricks.sliding_wi
 reg("np.emath.sqrt", "np.emath.sqrt(pos)", "np.emath.power(pos, 2)")
 reg("np.require", "np.require(M.T, requirements='C') #K", "np.require(a, dtype=None, requirements=['A', 'O']) #K")
 reg("np.asfortranarray", "np.asfortranarray(M) #N#X")
+# tuples of axes (some left standing), nested per-axis fill values, bare-first comparisons near the tolerance boundary
+reg("methods", "T4.prod(axis=(0, 1))", "T4.prod(axis=(-1,))", "T4.sum(axis=(0, 2)) #K", "T4.var(axis=(1, 2))", "T4.std(axis=(0, 1)) #K", "T4.max(axis=(0, 2)) #K", "T4.mean(axis=(-1,)) #K",
+    "T4.min(axis=(1,)) #K", "T4.ptp(axis=(0, 1)) #K" if hasattr(np.ndarray, "ptp") else "T4.sum(axis=(1,)) #K")
+reg("np.prod", "np.prod(T4, axis=(0, 1))", "np.prod(T4, axis=(0, 2), keepdims=True)", "np.multiply.reduce(T4, axis=(0, 1))", "np.multiply.reduce(T4, axis=(1,))", "np.add.reduce(T4, axis=(0, 2)) #K",
+    "np.var(T4, axis=(0, 1))", "np.median(T4, axis=(0, 1)) #K", "np.nanprod(T4, axis=(1, 2))", "np.ptp(T4, axis=(0, 1)) #K", "np.linalg.norm(T4, axis=(1, 2)) #K#T", "np.count_nonzero(T4, axis=(0, 1))")
+reg("np.pad", "np.pad(M, 1, constant_values=((q2lo, q2hi), (qa, q2lo))) #K", "np.pad(M, ((1, 0), (0, 2)), constant_values=((qa, q2hi), (q2lo, qa))) #K",
+    "np.pad(a, (1, 2), mode='linear_ramp', end_values=((q2lo, q2hi),)) #K", "np.pad(M, 1, mode='linear_ramp', end_values=((q2lo, qa), (qa, q2hi))) #K", "np.pad(a, 2, constant_values=[(q2lo, q2hi)]) #K")
+reg("np.isclose", "np.isclose(np.asarray(a) * 1.25, a, rtol=0.22, atol=0) #X", "np.isclose(a, np.asarray(a) * 1.25, rtol=0.22, atol=0) #X", "np.allclose(np.asarray(a) * 1.25, a, rtol=0.22, atol=0) #X",
+    "np.isclose((np.asarray(a) * 1.25).tolist(), a, rtol=0.22, atol=0) #X", "np.isclose(float(np.asarray(qa)) * 0.8, qa, rtol=0.22, atol=0) #X")
 reg("np.permute_dims", "np.permute_dims(T4, (1, 0, 2)) #K", "np.cumulative_sum(M, axis=1, include_initial=True) #K")
 
 
